@@ -30,13 +30,13 @@ const (
 
 // conversation kinds
 const (
-	cvNormal   = iota // ordinary flow: routed
-	cvDNS             // UDP datagrams to port 53: stateless
-	cvLocal           // towards a local (non-dae) UDP socket of the host
-	cvSelfPid         // sent by dae itself: socket cookie -> control-plane pid
-	cvSelfMark        // sent by dae itself: skb mark = dae's socket mark
-	cvReply           // x->y is the REPLY direction of a connection opened from the WAN side (y->x arrives at wan ingress)
-	cvForwarded       // WAN egress only: a frame that is being forwarded (ingress_ifindex != 0), not locally originated
+	cvNormal    = iota // ordinary flow: routed
+	cvDNS              // UDP datagrams to port 53: stateless
+	cvLocal            // towards a local (non-dae) UDP socket of the host
+	cvSelfPid          // sent by dae itself: socket cookie -> control-plane pid
+	cvSelfMark         // sent by dae itself: skb mark = dae's socket mark
+	cvReply            // x->y is the REPLY direction of a connection opened from the WAN side (y->x arrives at wan ingress)
+	cvForwarded        // WAN egress only: a frame that is being forwarded (ingress_ifindex != 0), not locally originated
 )
 
 type conv struct {
